@@ -453,8 +453,18 @@ def exec_stale(lm, core, t):
     if obs == "BufferError":
         # refused while exported: the view is intact, a copy is not blocked, scan() is refused like
         # calculate(), and after release() the object is usable again and scores like a fresh one
+        # (with TWO more views alive and one of them released, the reuse is still refused)
+        v2, v3 = memoryview(seq), memoryview(seq)
+        v3.release()
+        still = guarded(lambda: len(mk_scoring(lm, alpha, pssm).calculate(seq)))
+        if still[0] != "BufferError":
+            err = f"stale-view: calculate() with two of three views still alive gave {still[0]} (one release must not unlock the sequence)"
+        v2.release()
+        still = guarded(lambda: len(mk_scoring(lm, alpha, pssm).calculate(seq)))
+        if still[0] != "BufferError":
+            err = err or f"stale-view: calculate() with one view still alive gave {still[0]}"
         if before.tolist() != snapshot:
-            err = "stale-view: the view changed although calculate() was refused"
+            err = err or "stale-view: the view changed although calculate() was refused"
         c = guarded(lambda: len(mk_scoring(lm, alpha, pssm).calculate(seq.copy())))
         if c[0] != "ok":
             err = err or f"calculate() on a copy taken while a view is exported raised {c[0]}"
